@@ -5,6 +5,7 @@ Property statements only; proofs in `Lemmas/ServeLemmas.lean` and `Theorems/C17.
 -/
 import HttpServeModel.Lemmas.ServeLemmas
 import HttpServeModel.Theorems.C17
+import HttpServeModel.Lemmas.ServeCalls
 
 namespace HS
 
@@ -41,5 +42,14 @@ theorem C15_streaming (ae : Option Bytes) (chunk level : Nat)
     (h2 : streamingBuild false ae chunk level = .ok r2) :
     r1.vary = r2.vary ∧ r1.contentEncodingGzip = r2.contentEncodingGzip ∧ r1.writer = .none :=
   C17_headers_method_independent ae chunk level r1 r2 h1 h2
+
+/-- HEAD consults the entity exactly as GET does — the same `Entity` methods in the same order
+(validators, length, `add_headers`) — minus the one `get_range` call: nothing else is skipped,
+nothing extra is asked. -/
+theorem C15_head_calls_are_get_calls_minus_fetch (q : Req) (e : Ent) (now : Nat) (rg rh : Resp)
+    (hg : serve { q with method := .get } e now = .ok rg)
+    (hh : serve { q with method := .head } e now = .ok rh) :
+    rh.calls = rg.calls.filter (fun c => !c.isGetRange) :=
+  head_calls_eq_get_calls_sans_fetch q e now rg rh hg hh
 
 end HS
